@@ -432,4 +432,16 @@ model the identity of a prior *is* its id, so a pickle round trip is the renamin
 
 def pickleRT {V} (t : PN V) : PN V := renamePN (fun i => i) t
 
+/-! ## database rows: the counter of a rebuilt collection
+
+The rows of a collection do not store `item_number`. `database.model.prior.Collection._make_instance`
+(repaired: it used to leave the attribute out, so `dict()` / `append()` of a reloaded model raised) sets it to
+the position after the highest positional (all-digit) member name, `0` when there is none. `ps` = the member
+names read as positions (`none` for a name that is not a number). -/
+
+def nextPosition : List (Option Nat) → Nat
+  | [] => 0
+  | none :: rest => nextPosition rest
+  | some k :: rest => Nat.max (k + 1) (nextPosition rest)
+
 end AF
